@@ -9,3 +9,17 @@ r = Repo("/repo", inline=False)
 out = os.path.join(os.path.dirname(os.path.dirname(os.path.abspath(__file__))), "sa", "ref", "known_functions.json")
 json.dump(sorted(r.funcs), open(out, "w"), indent=0)
 print(len(r.funcs), "functions")
+
+import ast
+loc = {}
+for q, f in r.funcs.items():
+    names = set()
+    for n in ast.walk(f.node):
+        if isinstance(n, ast.Name) and isinstance(n.ctx, (ast.Store, ast.Del)):
+            names.add(n.id)
+        elif isinstance(n, ast.ExceptHandler) and n.name:
+            names.add(n.name)
+    loc[q] = sorted(names)
+out2 = os.path.join(os.path.dirname(out), "known_locals.json")
+json.dump(loc, open(out2, "w"), indent=0, sort_keys=True)
+print(sum(len(v) for v in loc.values()), "locals")
